@@ -4,6 +4,8 @@ Real code driven: dawgie.pl.logger.chronicle.append / find and
 dawgie.pl.schedule.complete, on a chronicle kept in a temp directory, with the
 clocks of both modules injected.  The oracle is a brute-force filter of the
 list of everything that was appended (never the files, never the code).
+Besides "record a history, then query it" (fresh chronicle per history) the
+"polled" part alternates appends and queries on one chronicle in one process.
 '''
 
 import datetime as _dt
@@ -23,7 +25,10 @@ BOUND = (
     'succeeded True/False, "now" injected after the newest entry (5 fixed + 3 seeded histories quick; '
     '5 fixed + 95 seeded histories thorough; two-sided windows take one rotating limit each in quick, all 11 in thorough); '
     'plus fixed "interleaved" histories (8 entries, 3 run-id files in each of 2 days, an OLDER run id completing AFTER a '
-    'newer one within the day for both outcomes; 2 day groups quick, all 5 thorough) queried the same way'
+    'newer one within the day for both outcomes; 2 day groups quick, all 5 thorough) queried the same way; '
+    'plus fixed "polled" histories in ONE process and ONE chronicle (12 entries appended in 3 rounds, rounds 2 and 3 '
+    'adding to journal files / day directories that earlier queries already read as well as to new files and new days; '
+    'the whole query set after every round against everything recorded so far; 1 day group quick, all 5 thorough)'
 )
 
 REPO = os.environ.get('VERIF_REPO', '/repo')
@@ -173,6 +178,61 @@ def _interleaved_history(group: str) -> list:
     return out
 
 
+POLLED_GROUPS = {'quick': ['leap'], 'thorough': sorted(GROUPS)}
+
+
+def _polled_rounds(group: str) -> list:
+    '''rounds of appends between which the history is queried (one process, one
+    chronicle): rounds 2 and 3 add to (day, run id) journal files that the
+    queries of the earlier rounds already read, to new files of days already
+    read and to days that did not exist before'''
+    days = GROUPS[group]
+    pattern = [  # per round: (day index, tod, status, run id, via)
+        [
+            (0, 2, 'success', 1, 'append'),
+            (0, 1, 'failure', 1, 'complete'),
+            (1, 0, 'success', 2, 'complete'),
+            (1, 2, 'success', 17, 'append'),
+        ],
+        [
+            (0, 3, 'success', 1, 'complete'),  # file of round 1, already queried
+            (0, 0, 'failure', 1, 'append'),  # file of round 1, already queried
+            (1, 1, 'success', 2, 'append'),  # file of round 1, already queried
+            (0, 1, 'success', 17, 'append'),  # new file in a day already queried
+            (1, 3, 'failure', 17, 'complete'),  # first failure of a file already queried
+        ],
+        [
+            (1, 3, 'success', 17, 'complete'),  # file queried in rounds 1 and 2
+            (0, 0, 'success', 1, 'append'),  # oldest entry of a file queried twice
+            (1, 1, 'failure', 2, 'append'),  # file queried twice
+        ],
+    ]
+    if len(days) > 2:  # the last day only appears after the first round(s) of queries
+        pattern[1].append((2, 0, 'success', 1, 'complete'))  # new day directory
+        pattern[2].append((2, 2, 'failure', 1, 'append'))  # file created in round 2
+        pattern[2].append((2, 1, 'success', 2, 'append'))  # new file in the new day
+    else:
+        pattern[1].append((1, 3, 'success', 1, 'complete'))  # new file, newest entry so far
+        pattern[2].append((1, 2, 'failure', 1, 'append'))  # file created in round 2
+    out = []
+    i = 0
+    for rnd in pattern:
+        out.append([])
+        for di, tod, status, runid, via in rnd:
+            out[-1].append(
+                {
+                    'completed': _iso(_t(days[di], tod)),
+                    'status': status,
+                    'runid': runid,
+                    'target': f'P{i}',
+                    'task': TASKS[i % len(TASKS)],
+                    'via': via,
+                }
+            )
+            i += 1
+    return out
+
+
 def _seeded_history(rng: random.Random, idx: int) -> (str, list):
     group = sorted(GROUPS)[rng.randrange(len(GROUPS))]
     days = GROUPS[group]
@@ -292,36 +352,41 @@ def _multiset_diff(a: list, b: list):
     return only_a, bb
 
 
+def _record_one(spec: dict, root: str, i: int) -> list:
+    '''append one entry through the real code, checking the append clauses on the files'''
+    problems = []
+    before = [_key(e) for e in _disk(root)]
+    try:
+        _do_append(spec)
+        err = None
+    except Exception as e:  # pylint: disable=broad-exception-caught
+        err = repr(e)
+    after = [_key(e) for e in _disk(root)]
+    lost, gained = _multiset_diff(before, after)
+    want = _spec_key(spec)
+    if lost:
+        problems.append(
+            ('C18.append.keeps', f'lost-earlier-entry:{spec["via"]}', i,
+             {'lost': [_show(x) for x in lost]}, 'every earlier entry still recorded')
+        )
+    if err is not None or len(gained) != 1:
+        problems.append(
+            ('C18.append.once', f'appended-{min(len(gained), 2)}-entries:{spec["via"]}', i,
+             {'appended': [_show(x) for x in gained], 'error': err}, 'exactly one entry appended')
+        )
+    elif gained[0] != want:
+        problems.append(
+            ('C18.append.outcome', f'wrong-entry:{spec["via"]}', i,
+             {'appended': _show(gained[0])}, _show(want))
+        )
+    return problems
+
+
 def _record_all(history: list, root: str):
     '''append every entry, checking the append clauses; returns (problems, cases)'''
     problems = []
-    recorded = []
     for i, spec in enumerate(history):
-        before = [_key(e) for e in _disk(root)]
-        try:
-            _do_append(spec)
-            err = None
-        except Exception as e:  # pylint: disable=broad-exception-caught
-            err = repr(e)
-        after = [_key(e) for e in _disk(root)]
-        lost, gained = _multiset_diff(before, after)
-        want = _spec_key(spec)
-        if lost:
-            problems.append(
-                ('C18.append.keeps', f'lost-earlier-entry:{spec["via"]}', i,
-                 {'lost': [_show(x) for x in lost]}, 'every earlier entry still recorded')
-            )
-        if err is not None or len(gained) != 1:
-            problems.append(
-                ('C18.append.once', f'appended-{min(len(gained), 2)}-entries:{spec["via"]}', i,
-                 {'appended': [_show(x) for x in gained], 'error': err}, 'exactly one entry appended')
-            )
-        elif gained[0] != want:
-            problems.append(
-                ('C18.append.outcome', f'wrong-entry:{spec["via"]}', i,
-                 {'appended': _show(gained[0])}, _show(want))
-            )
-        recorded.append(spec)
+        problems.extend(_record_one(spec, root, i))
     return problems, len(history)
 
 
@@ -523,6 +588,142 @@ def _scenario(args):
     return out
 
 
+def _run_steps(steps: list) -> list:
+    '''fresh chronicle, ONE process: run appends and queries in the given order,
+    every query compared with the brute-force filter of what was appended before
+    it; returns [(step index, clause, signature, observed, expected)]'''
+    root = tempfile.mkdtemp(prefix='c18_')
+    found = []
+    recorded = []
+    try:
+        dawgie.context.data_dbs = root
+        _reset_sched()
+        for n, step in enumerate(steps):
+            dawgie.context.data_dbs = root
+            if 'append' in step:
+                for clause, sig, _i, observed, expected in _record_one(step['append'], root, len(recorded)):
+                    found.append((n, clause, 'interleaved-append:' + sig, observed, expected))
+                recorded.append(step['append'])
+            else:
+                problems, _nt = _check_find(recorded, _qparse(step['query']))
+                for clause, sig, observed, expected in problems:
+                    found.append((n, clause, 'interleaved-query:' + sig, observed, expected))
+    finally:
+        shutil.rmtree(root, ignore_errors=True)
+        _reset_sched()
+    return found
+
+
+def _fails_last(steps: list, clause: str, signature: str) -> list:
+    return [p for p in _run_steps(steps) if p[0] == len(steps) - 1 and p[1] == clause and p[2] == signature]
+
+
+def _shrink_steps(steps: list, clause: str, signature: str, budget: float = 10.0) -> list:
+    '''drop chunks of steps (never the last one) while the last step still shows the
+    same violation; chunks are halved down to single steps; bounded in wall time'''
+    import time
+
+    stop = time.monotonic() + budget
+    cur = list(steps)
+    n = 2
+    while len(cur) > 1 and time.monotonic() < stop:
+        body = len(cur) - 1
+        n = min(n, body)
+        size = -(-body // n)
+        for lo in range(0, body, size):
+            cand = cur[:lo] + cur[lo + size:]
+            if time.monotonic() >= stop:
+                break
+            if _fails_last(cand, clause, signature):
+                cur = cand
+                n = max(n - 1, 2)
+                break
+        else:
+            if n >= body:
+                break
+            n = min(body, n * 2)
+    return cur
+
+
+def _polled_scenario(args):
+    '''one process, one chronicle: rounds of appends (append clauses on the files)
+    each followed by every query of the bounded space (find clauses) against
+    everything recorded so far'''
+    name, group, rounds, tier, salt = args
+    root = tempfile.mkdtemp(prefix='c18_')
+    out = {'cases': 0, 'nontrivial': 0, 'violations': {}, 'sample': None}
+    first = {}
+    recorded = []
+    trace = []  # every step executed so far
+    try:
+        dawgie.context.data_dbs = root
+        _reset_sched()
+        for r, specs in enumerate(rounds):
+            for spec in specs:
+                dawgie.context.data_dbs = root
+                problems = _record_one(spec, root, len(recorded))
+                recorded.append(spec)
+                trace.append({'append': spec})
+                out['cases'] += 1
+                for clause, sig, _i, observed, expected in problems:
+                    key = (clause, 'interleaved-append:' + sig)
+                    slot = out['violations'].setdefault(key, {'count': 0})
+                    slot['count'] += 1
+                    if key not in first:
+                        first[key] = (len(trace), None, r, observed, expected)
+            for query in _queries(recorded, group, tier, salt + r):
+                dawgie.context.data_dbs = root
+                problems, nontrivial = _check_find(recorded, query)
+                trace.append({'query': _qjson(query)})
+                out['cases'] += 1
+                out['nontrivial'] += 1 if nontrivial else 0
+                if nontrivial and r and out['sample'] is None and query[0] is not None and query[1] is not None:
+                    out['sample'] = {'history': name, 'entries': len(recorded), 'after-round': r + 1,
+                                     'query': _qjson(query)}
+                for clause, sig, observed, expected in problems:
+                    key = (clause, 'interleaved-query:' + sig)
+                    slot = out['violations'].setdefault(key, {'count': 0})
+                    slot['count'] += 1
+                    if key not in first:
+                        first[key] = (len(trace), query, r, observed, expected)
+    finally:
+        shutil.rmtree(root, ignore_errors=True)
+        _reset_sched()
+    for (clause, sig), (upto, query, r, observed, expected) in first.items():
+        # smallest explanation first: the same query asked after every earlier round
+        steps = None
+        if query is not None:
+            cand = []
+            for specs in rounds[: r + 1]:
+                cand += [{'append': s} for s in specs] + [{'query': _qjson(query)}]
+            if _fails_last(cand, clause, sig):
+                steps = cand
+        if steps is None and _fails_last(trace[:upto], clause, sig):
+            steps = trace[:upto]
+        if steps is not None:
+            steps = _shrink_steps(steps, clause, sig)
+            again = _fails_last(steps, clause, sig)
+            if again:
+                observed, expected = again[0][3], again[0][4]
+        else:  # not reproducible from a fresh chronicle: keep what was executed
+            steps = trace[:upto]
+        out['violations'][(clause, sig)].update(
+            {'input': {'kind': 'interleaved', 'steps': steps}, 'observed': observed, 'expected': expected}
+        )
+    out['violations'] = [
+        {'clause': c, 'signature': s, **v} for (c, s), v in out['violations'].items()
+    ]
+    return out
+
+
+def _dispatch(args):
+    return _polled_scenario(args) if args[0].startswith('polled:') else _scenario(args)
+
+
+def _size(v: dict) -> int:
+    return len(v['input'].get('history') or v['input'].get('steps') or [])
+
+
 def run(tier: str, seed: int) -> dict:
     rng = random.Random(seed)
     scenarios = [(f'fixed:{g}', g, _fixed_history(g), tier, 0) for g in GROUPS]
@@ -530,13 +731,14 @@ def run(tier: str, seed: int) -> dict:
     for i in range(3 if tier == 'quick' else 95):
         g, h = _seeded_history(rng, i)
         scenarios.append((f'seed{seed}:{i}:{g}', g, h, tier, rng.randrange(10)))
+    scenarios += [(f'polled:{g}', g, _polled_rounds(g), tier, 5) for g in POLLED_GROUPS[tier]]
     if tier == 'thorough':
         import multiprocessing
 
         with multiprocessing.get_context('fork').Pool(min(16, os.cpu_count() or 1)) as pool:
-            results = pool.map(_scenario, scenarios, chunksize=1)
+            results = pool.map(_dispatch, scenarios, chunksize=1)
     else:
-        results = [_scenario(s) for s in scenarios]
+        results = [_dispatch(s) for s in scenarios]
     merged = {}
     for res in results:
         for v in res['violations']:
@@ -545,11 +747,13 @@ def run(tier: str, seed: int) -> dict:
                 merged[k] = dict(v)
             else:
                 merged[k]['count'] += v['count']
-                if len(v['input']['history']) < len(merged[k]['input']['history']):
+                if _size(v) < _size(merged[k]):
                     cnt = merged[k]['count']
                     merged[k] = dict(v)
                     merged[k]['count'] = cnt
-    samples = [r['sample'] for r in results if r['sample']][:4]
+    polled = [r['sample'] for sc, r in zip(scenarios, results) if r['sample'] and sc[0].startswith('polled:')]
+    samples = [r['sample'] for sc, r in zip(scenarios, results) if r['sample'] and not sc[0].startswith('polled:')]
+    samples = samples[: 4 - len(polled[:1])] + polled[:1]
     samples.insert(0, {'history': scenarios[0][0], 'entries': scenarios[0][2]})
     return {
         'cases': sum(r['cases'] for r in results),
@@ -559,7 +763,9 @@ def run(tier: str, seed: int) -> dict:
             'after each) and then queried with every window/limit/outcome of BOUND (one case per find call); '
             'all queries of a history are pairwise different; a query is non-trivial when the brute-force '
             'window is non-empty; the fixed and the "interleaved" histories (older run id completing after a newer '
-            'one inside one day directory, several files per day) do not depend on the seed'
+            'one inside one day directory, several files per day) do not depend on the seed; the "polled" histories '
+            '(seed-independent too) keep ONE chronicle in ONE process and alternate rounds of appends with the whole '
+            'query set, each query compared with everything recorded up to then (appends and finds counted the same way)'
         ),
         'exhaustive': False,
         'samples': samples,
@@ -571,6 +777,15 @@ def run(tier: str, seed: int) -> dict:
 
 def replay(case: dict) -> dict:
     case = case.get('input', case)
+    if case.get('kind') == 'interleaved':
+        steps = case['steps']
+        problems = _run_steps(steps)
+        problems = [p for p in problems if p[0] == len(steps) - 1] or problems
+        if problems:
+            return {'reproduced': True, 'clause': problems[0][1], 'signature': problems[0][2],
+                    'step': problems[0][0], 'observed': problems[0][3], 'expected': problems[0][4]}
+        return {'reproduced': False, 'observed': 'every append added one entry and every find returned the expected entries',
+                'expected': 'exactly the brute-force window of what was recorded before each query'}
     history = case['history']
     if case.get('kind') == 'append':
         root = tempfile.mkdtemp(prefix='c18_')
